@@ -37,6 +37,7 @@ class Exec(ExprMixin, StmtMixin, CallMixin):
         self.named_facts = {}
         self.param_cache = {}
         self.iter_snaps = []
+        self.inlined = {}
         self.listsets = False
         for m in (models or []): m.install(self)
 
@@ -250,7 +251,8 @@ class Exec(ExprMixin, StmtMixin, CallMixin):
         """Generate all VCs of function `key`.  Returns (vcs, info)."""
         fn = self.repo.get(key); c = self.contracts.get(key)
         if c is None: raise StaleContract('no contract for ' + key)
-        self.fn = fn; self.contract = c; self.vcs = []; self.pure_cache = {}
+        reset_fresh()        # names (and with them solver behaviour) do not depend on what was verified before
+        self.fn = fn; self.contract = c; self.vcs = []; self.pure_cache = {}; self.inlined = {}
         self.listsets = 'listsets' in c.get('theory', [])
         self.rec_kinds = {nm: v[0] for lc in c.get('loops', {}).values() for nm, v in lc.get('record', {}).items()}
         self.defs = dict(self.global_defs); self.defs.update(c.get('defs', {}))
@@ -302,6 +304,13 @@ class Exec(ExprMixin, StmtMixin, CallMixin):
                         self.vcs.append(VC('post/' + name, list(q.pc), t, 'post', fn.lines[1], fn.key))
                 finally: self.old_stack.pop()
                 if c.get('pure') or getattr(self, 'force_pure', False): self.frame_check(pre, q, fn)
+                # list parameters are the caller's objects: a function may not change them unless its contract says so
+                for nm in names:
+                    a0, a1 = pre.env.get(nm), q.env.get(nm)
+                    if isinstance(a0, VList) and nm not in c.get('modifies_params', ()):
+                        if not isinstance(a1, VList): self.vcs.append(VC('frame/param-%s-unchanged' % nm, list(q.pc), z3.BoolVal(False), 'frame', fn.lines[1], fn.key))
+                        elif not (a0.len.eq(a1.len) and a0.arr.eq(a1.arr)):
+                            self.vcs.append(VC('frame/param-%s-unchanged' % nm, list(q.pc), a0.term() == a1.term(), 'frame', fn.lines[1], fn.key))
                 if c.get('no_return'):
                     self.vcs.append(VC('post/must-exit', list(q.pc), z3.BoolVal(False), 'post', fn.lines[1], fn.key))
             elif st == 'exit':
@@ -316,7 +325,7 @@ class Exec(ExprMixin, StmtMixin, CallMixin):
                 raise Undecided('%s escapes the function' % st)
         self.add_axioms()
         info = dict(function=key, file=fn.path, lines=list(fn.lines), sha256=fn.sha256, stmts_executed=self.nexec,
-                    paths=len(res), vcs=len(self.vcs))
+                    paths=len(res), vcs=len(self.vcs), inlined=dict(self.inlined))
         return self.vcs, info
 
 
@@ -398,7 +407,7 @@ def _opaque_call(self, n, a, p):
     params, body = self.defs[n][0], self.defs[n][1]
     vals = [self.ev(x, p) for x in a]
     hk = heap_key(p)
-    ck = ('opaque', self.fn.key, n, hk, tuple(type(v).__name__ + str(getattr(v, 'kind', '')) for v in vals))
+    ck = ('opaque', self.fn.key, n, body, hk, tuple(type(v).__name__ + str(getattr(v, 'kind', '')) for v in vals))
     if ck not in self.param_cache:
         q = p.fork(); syms = []; zs = []
         for nm, v in zip(params, vals):
@@ -407,7 +416,7 @@ def _opaque_call(self, n, a, p):
         try: res = self.ev(parse_spec(body), q)
         finally: self.qvars = saved
         t = self.truthy(res) if not isinstance(res, VInt) else res.t
-        F = self.lemmas.opaque_fn(ck, zs, t)
+        F = self.lemmas.opaque_fn(ck, zs, t, n)
         self.param_cache[ck] = (F, isinstance(res, VInt))
     F, is_int = self.param_cache[ck]
     args = []
@@ -508,6 +517,7 @@ def _verify_lemma(self, name, L):
     class _F:      # pseudo function record
         key = 'lemma:' + name; qualname = name; module = 'lemma'; loops = {}; loop_nodes = []; lines = (0, 0); path = 'contracts'
         sha256 = ''
+    reset_fresh()
     self.fn = _F(); self.contract = L; self.vcs = []; self.named_facts = {}
     if L.get('assumed'):      # an assumption, listed as such in evidence; nothing is proved here
         return [], dict(function='lemma:' + name, file='contracts', lines=[0, 0], sha256='', stmts_executed=0, paths=0, vcs=0, assumed=True)
@@ -630,13 +640,14 @@ def _add_axioms(self):
     for v in self.vcs:
         syms = set(self.lemmas.symbols(v.goal))
         for h in v.hyps: syms |= self.lemmas.symbols(h)
-        ax = self.lemmas.axioms_for(syms)
+        sealed = tuple(self.contract.get('sealed', ())) if isinstance(self.contract, dict) else ()
+        ax = self.lemmas.axioms_for(syms, sealed)
         # axioms may mention further named arrays (nested sums): close under dependencies
         for _ in range(3):
             more = set()
             for a in ax: more |= self.lemmas.symbols(a)
             if more <= syms: break
-            syms |= more; ax = self.lemmas.axioms_for(syms)
+            syms |= more; ax = self.lemmas.axioms_for(syms, sealed)
         v.hyps.extend(ax)
         v.quant = '<q>' in syms or bool(ax)
 
